@@ -13,6 +13,9 @@ struct sps264 {
     bool valid; int nal;        /* index of the NAL record with the latest content */
     int profile, level, chroma, log2_mfn, poc_type, log2_poc;
     bool sep_plane, always_zero, fmo;
+    /* VUI (E.1.1) as far as it changes the syntax of SEI messages */
+    bool vui, hrd_nal, hrd_vcl, pic_struct_present;
+    int cpb_cnt_nal, cpb_cnt_vcl, icrd_len, crd_len, dod_len, to_len;
 };
 struct pps264 { bool valid; int nal; int sps_id; bool bf_poc; };
 
@@ -20,12 +23,107 @@ struct g264 {
     struct sps264 sps[32];
     struct pps264 pps[256];
     uint32_t rnd;
+    int nsps;                   /* SPS written so far (ordinal for the optional syntax) */
 };
 
 static uint32_t g_rnd(uint32_t *s) { *s = *s * 1664525u + 1013904223u; return *s >> 8; }
 
 static int sc_pick(uint8_t b, bool first) { return first ? ((b & 7) == 7 ? 3 : 4) : ((b & 1) ? 3 : 4); }
 static int tz_pick(uint8_t b) { return (b & 0x30) == 0x30 ? 1 + ((b >> 6) & 1) : 0; }
+
+/* 7.3.2.1.1.1 scaling_list(): mode 0 = first delta makes nextScale 0 (default list), 1 = some deltas then nextScale 0
+ * (the rest repeats lastScale), 2 = a delta for every coefficient */
+static void g264_scaling_list(struct rb *w, uint32_t *xs, int size)
+{
+    uint32_t r = ext_rnd(xs);
+    int mode = r % 3, stop = 1 + (r >> 4) % (size - 1);
+    int last = 8, next = 8;
+    for (int j = 0; j < size; j++) {
+        if (next != 0) {
+            int want;       /* the nextScale to reach */
+            if (mode == 0 || (mode == 1 && j == stop)) want = 0;
+            else { uint32_t q = ext_rnd(xs); want = (q & 0x30) ? 1 + (last + (int)(q % 7) - 3 + 254) % 255 : 1 + q % 255; }
+            int delta = want - last;
+            if (delta > 127) delta -= 256;
+            if (delta < -128) delta += 256;
+            rb_se(w, delta);
+            next = (last + delta + 256) % 256;
+        }
+        last = next == 0 ? last : next;
+    }
+}
+
+/* E.1.2 hrd_parameters() */
+static void g264_hrd(struct rb *w, uint32_t *xs, const struct sps264 *s, int *cnt)
+{
+    uint32_t r = ext_rnd(xs);
+    int c = (r & 15) == 15 ? 32 : 1 + (r & 3);
+    *cnt = c;
+    rb_ue(w, c - 1);                        /* cpb_cnt_minus1 */
+    rb_u(w, 4, (r >> 4) & 15);              /* bit_rate_scale */
+    rb_u(w, 4, (r >> 8) & 15);              /* cpb_size_scale */
+    for (int i = 0; i < c; i++) {
+        uint32_t q = ext_rnd(xs);
+        rb_ue(w, (q & 31) == 31 ? 0xfffffffeu : q % 200000);    /* bit_rate_value_minus1 */
+        rb_ue(w, (q & 0x3e0) == 0x3e0 ? 0xfffffffeu : (q >> 3) % 50000);    /* cpb_size_value_minus1 */
+        rb_u(w, 1, (q >> 12) & 1);          /* cbr_flag */
+    }
+    rb_u(w, 5, s->icrd_len - 1);
+    rb_u(w, 5, s->crd_len - 1);
+    rb_u(w, 5, s->dod_len - 1);
+    rb_u(w, 5, s->to_len);
+}
+
+/* E.1.1 vui_parameters() */
+static void g264_vui(struct es *e, struct rb *w, uint32_t *xs, struct sps264 *s)
+{
+    uint32_t r = ext_rnd(xs);
+    bool ar = r & 1, overscan = r & 2, signal = r & 4, colour = r & 8, chroma_loc = r & 16, timing = (r & 0x60) != 0;
+    bool nal = (r & 0x180) == 0x180 || (r & 0x600) == 0x200, vcl = (r & 0x600) == 0x600 || (r & 0x180) == 0x080;
+    bool restr = r & 0x1000;
+    s->pic_struct_present = r & 0x800;
+    rb_u(w, 1, ar);
+    if (ar) {
+        uint32_t q = ext_rnd(xs);
+        int idc = (q & 3) == 0 ? 255 : (q & 3) == 1 ? 17 + (q >> 2) % 200 : 1 + (q >> 2) % 16;
+        rb_u(w, 8, idc);
+        if (idc == 255) { rb_u(w, 16, 1 + (q >> 8) % 4000); rb_u(w, 16, (q >> 4) % 3000); }
+    }
+    rb_u(w, 1, overscan);
+    if (overscan) rb_u(w, 1, (r >> 13) & 1);
+    rb_u(w, 1, signal);
+    if (signal) {
+        rb_u(w, 3, (r >> 14) % 6); rb_u(w, 1, (r >> 17) & 1); rb_u(w, 1, colour);
+        if (colour) { uint32_t q = ext_rnd(xs); rb_u(w, 8, 1 + q % 12); rb_u(w, 8, 1 + (q >> 4) % 18); rb_u(w, 8, (q >> 9) % 15); }
+    }
+    rb_u(w, 1, chroma_loc);
+    if (chroma_loc) { rb_ue(w, (r >> 18) % 6); rb_ue(w, (r >> 21) % 6); }
+    rb_u(w, 1, timing);
+    if (timing) {
+        uint32_t q = ext_rnd(xs);
+        static const uint32_t ticks[] = { 1, 1001, 1000, 3600, 0x01000001u, 90000, 2, 125 };
+        static const uint32_t scales[] = { 50, 60000, 48000, 90000, 0xfffffffeu, 27000000, 25, 30000 };
+        rb_u(w, 32, ticks[q % 8]); rb_u(w, 32, scales[(q >> 3) % 8]);
+        rb_u(w, 1, (q >> 6) & 1);           /* fixed_frame_rate_flag */
+        e->has_timing = true;
+    }
+    s->icrd_len = 1 + (r >> 8) % 32; s->crd_len = 1 + (r >> 3) % 32; s->dod_len = 1 + (r >> 15) % 32; s->to_len = (r >> 19) % 32;
+    s->hrd_nal = nal; s->hrd_vcl = vcl;
+    rb_u(w, 1, nal);
+    if (nal) g264_hrd(w, xs, s, &s->cpb_cnt_nal);
+    rb_u(w, 1, vcl);
+    if (vcl) g264_hrd(w, xs, s, &s->cpb_cnt_vcl);
+    if (nal || vcl) { rb_u(w, 1, (r >> 22) & 1); e->has_hrd = true; }    /* low_delay_hrd_flag */
+    rb_u(w, 1, s->pic_struct_present);
+    rb_u(w, 1, restr);
+    if (restr) {
+        uint32_t q = ext_rnd(xs);
+        rb_u(w, 1, 1); rb_ue(w, q % 17); rb_ue(w, (q >> 5) % 17); rb_ue(w, (q >> 9) % 17); rb_ue(w, (q >> 13) % 17);
+        rb_ue(w, (q >> 17) % 4);            /* max_num_reorder_frames */
+        rb_ue(w, (q >> 17) % 4 + (q >> 19) % 3);    /* max_dec_frame_buffering */
+    }
+    e->has_vui = true;
+}
 
 static void g264_sps(struct es *e, struct g264 *g, struct tape *t, int id)
 {
@@ -43,6 +141,9 @@ static void g264_sps(struct es *e, struct g264 *g, struct tape *t, int id)
     s->log2_poc = 4 + (c / 3 % 13);
     s->always_zero = (c & 0x40) != 0;
     s->fmo = !(c & 0x80);
+    s->vui = s->hrd_nal = s->hrd_vcl = s->pic_struct_present = false;
+    uint32_t xs = ext_seed(g->nsps++);
+    uint32_t xo = xs ? ext_rnd(&xs) : 0;    /* bit 0: scaling matrices with real lists, bits 1-2: VUI */
     struct rb w; rb_init(&w);
     rb_u(&w, 8, s->profile);
     rb_u(&w, 8, s->profile == 66 ? 0xc0 : 0);
@@ -54,9 +155,18 @@ static void g264_sps(struct es *e, struct g264 *g, struct tape *t, int id)
         rb_ue(&w, a >> 7 ? 2 : 0);          /* bit_depth_luma_minus8 */
         rb_ue(&w, a >> 7 ? 2 : 0);          /* bit_depth_chroma_minus8 */
         rb_u(&w, 1, 0);                     /* qpprime_y_zero_transform_bypass_flag */
-        bool scaling = (b & 0x20) != 0;
+        bool scaling = (b & 0x20) != 0 || (xo & 1);
         rb_u(&w, 1, scaling);               /* seq_scaling_matrix_present_flag */
-        if (scaling) {
+        if (scaling && (xo & 1)) {
+            int lists = s->chroma != 3 ? 8 : 12;
+            uint32_t pres = ext_rnd(&xs);
+            for (int i = 0; i < lists; i++) {
+                bool present = (pres >> i) & 1;
+                rb_u(&w, 1, present);       /* seq_scaling_list_present_flag[i] */
+                if (present) g264_scaling_list(&w, &xs, i < 6 ? 16 : 64);
+            }
+            e->has_scaling = true;
+        } else if (scaling) {
             int lists = s->chroma != 3 ? 8 : 12;
             for (int i = 0; i < lists; i++) {
                 bool present = i == 1;
@@ -86,12 +196,14 @@ static void g264_sps(struct es *e, struct g264 *g, struct tape *t, int id)
     bool crop = (a & 0x40) != 0;
     rb_u(&w, 1, crop);
     if (crop) { rb_ue(&w, 0); rb_ue(&w, 1); rb_ue(&w, 0); rb_ue(&w, b & 1); }
-    rb_u(&w, 1, 0);                         /* vui_parameters_present_flag */
+    s->vui = (xo & 6) != 0;
+    rb_u(&w, 1, s->vui);                    /* vui_parameters_present_flag */
+    if (s->vui) g264_vui(e, &w, &xs, s);
     rb_trailing(&w);
     uint8_t hdr = 0x67, x = tp_u8(t);
     struct nalrec *r = es_nal(e, 7, sc_pick(x, true), &hdr, 1, &w, tz_pick(x));
     if (!r) return;
-    r->id = id;
+    r->id = id; r->chroma = s->chroma; r->depth = high && (a >> 7) ? 2 : 0;
     s->valid = true; s->nal = e->nnal - 1;
 }
 
@@ -187,15 +299,30 @@ static void g264_sei(struct es *e, struct g264 *g, struct tape *t, int kind, int
         rb_u(&w, 8, 5); rb_u(&w, 8, n);
         for (int i = 0; i < n; i++) { uint32_t r = g_rnd(&g->rnd); rb_u(&w, 8, (r & 0x100) ? r & 0xff : 0); }
         break; }
-    case 2: {   /* buffering_period without HRD parameters: seq_parameter_set_id only */
+    case 2: {   /* buffering_period (D.1.2): seq_parameter_set_id, then the initial delays of every CPB of the HRD parameters */
         struct rb p; rb_init(&p);
+        const struct sps264 *s = &g->sps[sps_id];
         rb_ue(&p, sps_id);
-        rb_trailing(&p);                    /* payload bit_equal_to_one + alignment */
+        if (s->vui && s->hrd_nal) for (int i = 0; i < s->cpb_cnt_nal; i++) { rb_u(&p, s->icrd_len, g_rnd(&g->rnd) | 1); rb_u(&p, s->icrd_len, g_rnd(&g->rnd)); }
+        if (s->vui && s->hrd_vcl) for (int i = 0; i < s->cpb_cnt_vcl; i++) { rb_u(&p, s->icrd_len, g_rnd(&g->rnd) | 1); rb_u(&p, s->icrd_len, g_rnd(&g->rnd)); }
+        if (p.bits % 8) rb_trailing(&p);    /* payload bit_equal_to_one + alignment */
+        else if (!s->vui) rb_trailing(&p);
         rb_u(&w, 8, 0); rb_u(&w, 8, p.bits / 8);
         for (size_t i = 0; i < p.bits / 8; i++) rb_u(&w, 8, p.b[i]);
         break; }
-    default: {  /* pic_timing (empty without VUI) then recovery_point */
-        rb_u(&w, 8, 1); rb_u(&w, 8, 0);
+    default: {  /* pic_timing (D.1.3; empty without VUI) then recovery_point */
+        const struct sps264 *s = &g->sps[sps_id];
+        struct rb q; rb_init(&q);
+        if (s->vui && (s->hrd_nal || s->hrd_vcl)) { rb_u(&q, s->crd_len, g_rnd(&g->rnd)); rb_u(&q, s->dod_len, g_rnd(&g->rnd) % 7); }
+        if (s->vui && s->pic_struct_present) {
+            static const int nclock[9] = { 1, 1, 1, 2, 2, 3, 3, 2, 3 };
+            int ps = g_rnd(&g->rnd) % 9;
+            rb_u(&q, 4, ps);
+            for (int i = 0; i < nclock[ps]; i++) rb_u(&q, 1, 0);    /* clock_timestamp_flag[i] */
+        }
+        if (q.bits % 8) rb_trailing(&q);
+        rb_u(&w, 8, 1); rb_u(&w, 8, q.bits / 8);
+        for (size_t i = 0; i < q.bits / 8; i++) rb_u(&w, 8, q.b[i]);
         struct rb p; rb_init(&p);
         rb_ue(&p, tp_u8(t) % 60); rb_u(&p, 1, 1); rb_u(&p, 1, 0); rb_u(&p, 2, 0);
         rb_trailing(&p);
